@@ -226,7 +226,7 @@ def plan(run):
     quick = run.tier == "quick"
     run.rule = ("all key sequences over {a,b,null}^levels: 1 level length<=7 (thorough 8), 2 levels length<=4 (5), 3 levels length<=3 over {a,null} (quick) / "
                 "{a,b,null} (thorough); each with nrow = 1..n+1 (1 level) or a subset placing breaks at several positions; plus combinations with page_by / "
-                "subline_by on another column; plus integer / float / boolean key columns over {0, 1, null} (1 level length<=5 (7), 2 levels length<=3 (4)); plus two-level keys whose texts hold '|', ',', a tab or the words '__NULL__' / 'None'. states = documents executed (sequence x nrow); non-trivial = distinct (sequence, nrow) rendered on >= 2 pages, or rejected as non-contiguous")
+                "subline_by on another column; plus integer / float / boolean key columns over {0, 1, null} (1 level length<=5 (7), 2 levels length<=3 (4)); plus two-level keys whose texts hold '|', ',', a tab or the words '__NULL__' / 'None'; plus two- and three-level keys whose columns sit in the DataFrame in another order than group_by names them. states = documents executed (sequence x nrow); non-trivial = distinct (sequence, nrow) rendered on >= 2 pages, or rejected as non-contiguous")
     run.assumptions = ["no header/footnote rows are configured, so nrow alone controls where pages start",
                        "null display text is the empty string, so only non-null cells can distinguish blank from shown"]
     cases = []
@@ -269,6 +269,14 @@ def plan(run):
             for b in itertools.product(SYMS, repeat=2):
                 cases.append({"levels": 2, "prefix": [list(a), list(b)], "depth": 1 if quick else 2, "nrows": [1, 3],
                               "extra": {"group_by_values": vals, "body": {"text_convert": False}}})  # '_' would be converted to a subscript
+    # the group_by list names the levels in another order than the DataFrame holds the columns (outer level = first NAME in group_by)
+    for a in itertools.product(SYMS, repeat=2):
+        for b in itertools.product(SYMS, repeat=2):
+            cases.append({"levels": 2, "prefix": [list(a), list(b)], "depth": 1 if quick else 2, "nrows": [1, 2, 3], "extra": {"colorder": ["c0", "k1", "k0", "c1"]}})
+    for a in itertools.product((0, None), repeat=3):
+        for b in itertools.product((0, 1, None) if not quick else (0, None), repeat=3):
+            cases.append({"levels": 3, "syms": [0, 1, None] if not quick else [0, None], "prefix": [list(a), list(b)], "depth": 1, "nrows": [1, 2],
+                          "extra": {"colorder": ["k2", "c0", "k0", "c1", "k1"]}})
     run.layer("key-sequences", "mc.props.c13:eval_case", cases, chunk=1, total=len(cases))
     run.extra["traces_validated_against_impl"] = run.evaluations
     for need in ("rendered", "rejected", "multi_page", "with_null"):
